@@ -429,15 +429,32 @@ def canonical_str_rule(ctx, rule: str) -> T.Dict[str, bool]:
     properties hand on the number, not the letter."""
     import itertools
     import types
-    from sa.model import CannotFold
+    from sa.model import Abstract, CannotFold, EvalError
     prog = ctx.prog
     vs = prog.klass(f"{M}.Version").methods.get("__str__")
     wrong: T.List[str] = []
     n = 0
     try:
+        klass = prog.klass(f"{M}.Version")
+
+        class Me(Abstract):
+            """A Version whose accessors are the class's own property functions, evaluated on demand over an abstract _version."""
+            def __init__(self, raw: T.Any):
+                self._version = raw
+
+            def __getattr__(self, attr: str) -> T.Any:
+                fn_ = klass.methods.get(attr)
+                if attr.startswith("__") or fn_ is None or not any(unparse(d_) == "property" for d_ in getattr(fn_.node, "decorator_list", [])):
+                    raise AttributeError(attr)
+                val, _y = prog.run_body(fn_, {fn_.params[0]: self, "__strict__": True})
+                return val
         for epoch, pre, post, dev, local in itertools.product((0, 1), (None, ("a", 0), ("rc", 1)), (None, 0, 2), (None, 0, 3), (None, "ubuntu.1")):
-            me = types.SimpleNamespace(epoch=epoch, release=(1, 20, 0), pre=pre, post=post, dev=dev, local=local)
-            got, _ys = prog.run_body(vs, {vs.params[0]: me})
+            raw = types.SimpleNamespace(epoch=epoch, release=(1, 20, 0), pre=pre, post=None if post is None else ("post", post), dev=None if dev is None else ("dev", dev),
+                                        local=None if local is None else ("ubuntu", 1))
+            try:
+                got, _ys = prog.run_body(vs, {vs.params[0]: Me(raw), "__strict__": True})
+            except EvalError as ex:
+                got = f"raises: {ex}"
             want = (f"{epoch}!" if epoch else "") + "1.20.0" + (f"{pre[0]}{pre[1]}" if pre is not None else "") + (f".post{post}" if post is not None else "") \
                 + (f".dev{dev}" if dev is not None else "") + (f"+{local}" if local is not None else "")
             n += 1
